@@ -673,6 +673,100 @@ macro_rules! guard_fixtures {
 guard_fixtures!(guard_dflt, guard_dflt_async, g, #[emit::span(rt: RT, mdl: emit::Path::new_raw("m0"), guard: g, "n0", a: 0)]);
 guard_fixtures!(guard_dfltl, guard_dfltl_async, g, #[emit::info_span(rt: RT, mdl: emit::Path::new_raw("m0"), guard: g, panic_lvl: emit::Level::Warn, "n0", a: 0)]);
 
+// `setup:` - the function runs before the span is created, the value it returns is dropped
+// after the body's frame returned (after the completion)
+struct SetupGuard;
+impl Drop for SetupGuard {
+    fn drop(&mut self) {
+        mark("setup_drop");
+    }
+}
+fn do_setup() -> SetupGuard {
+    mark("setup");
+    SetupGuard
+}
+plain_fixtures!(setup_dflt, setup_dflt_async, #[emit::span(rt: RT, mdl: emit::Path::new_raw("m0"), setup: do_setup, "n0", a: 0)]);
+plain_fixtures!(setup_dfltl, setup_dfltl_async, #[emit::info_span(rt: RT, mdl: emit::Path::new_raw("m0"), setup: do_setup, panic_lvl: emit::Level::Warn, "n0", a: 0)]);
+
+// `err:` - the function's error type is not an error; the mapper hands out the one inside
+struct Opaque(std::io::Error);
+fn map_err(e: &Opaque) -> &(dyn std::error::Error + 'static) {
+    &e.0
+}
+fn fail_m() -> Result<u32, Opaque> {
+    Err(Opaque(std::io::Error::other("mapped")))
+}
+
+macro_rules! resultm_fixtures {
+    ($sync:ident, $asyn:ident, #[$($attr:tt)*]) => {
+        #[$($attr)*]
+        fn $sync(exit: &str) -> Result<u32, Opaque> {
+            note_ids();
+            CUR_OP.store(2, SeqCst);
+            match exit {
+                "early_ok" => return Ok(1),
+                "early_err" => return Err(Opaque(std::io::Error::other("mapped"))),
+                "q_err" => {
+                    fail_m()?;
+                }
+                "panic" => std::panic::panic_any(Boom),
+                _ => {}
+            }
+            Ok(2)
+        }
+        #[$($attr)*]
+        async fn $asyn(exit: &str) -> Result<u32, Opaque> {
+            YieldOnce(false).await;
+            note_ids();
+            CUR_OP.store(2, SeqCst);
+            match exit {
+                "early_ok" => return Ok(1),
+                "early_err" => return Err(Opaque(std::io::Error::other("mapped"))),
+                "q_err" => {
+                    fail_m()?;
+                }
+                "panic" => std::panic::panic_any(Boom),
+                _ => {}
+            }
+            YieldOnce(false).await;
+            Ok(2)
+        }
+    };
+}
+resultm_fixtures!(resultm_dflt, resultm_dflt_async, #[emit::span(rt: RT, mdl: emit::Path::new_raw("m0"), ok_lvl: emit::Level::Debug, err_lvl: emit::Level::Warn, err: map_err, "n0", a: 0)]);
+resultm_fixtures!(resultm_dfltl, resultm_dfltl_async, #[emit::info_span(rt: RT, mdl: emit::Path::new_raw("m0"), ok_lvl: emit::Level::Debug, err_lvl: emit::Level::Warn, panic_lvl: emit::Level::Warn, err: map_err, "n0", a: 0)]);
+
+/// `emit::new_span!` and manual handling of the guard: nothing is automatic, the
+/// operations (type-keeping ones, any order) run inside the frame - `Frame::call` or
+/// `Frame::in_future`.
+fn run_newspan(case: &Value, asyn: bool, obs: &mut Obs) {
+    let ops = case["ops"].as_array().unwrap();
+    macro_rules! go {
+        ($pair:expr) => {{
+            let (guard, frame) = $pair;
+            note(obs, &guard);
+            if asyn {
+                block_on(frame.in_future(async move {
+                    YieldOnce(false).await;
+                    note_ids();
+                    run_ops(guard, ops, 1, None, obs);
+                    YieldOnce(false).await;
+                }))
+            } else {
+                frame.call(move || {
+                    note_ids();
+                    run_ops(guard, ops, 1, None, obs);
+                })
+            }
+        }};
+    }
+    match ops[0]["a"].as_str().unwrap() {
+        "dflt" => go!(emit::new_span!(rt: RT, mdl: emit::Path::new_raw("m0"), "n0", a: 0)),
+        "dfltL" => go!(emit::new_info_span!(rt: RT, mdl: emit::Path::new_raw("m0"), panic_lvl: emit::Level::Warn, "n0", a: 0)),
+        c => tool_error(&format!("new_span! with completion kind {c}")),
+    }
+}
+
 /// Run the macro fixture for the case; `asyn` selects the async variant.
 fn run_macro(case: &Value, asyn: bool, obs: &mut Obs) {
     let ops = case["ops"].as_array().unwrap();
@@ -681,6 +775,9 @@ fn run_macro(case: &Value, asyn: bool, obs: &mut Obs) {
     let l = comp == "dfltL";
     if comp != "dflt" && comp != "dfltL" {
         tool_error("macro form with a non-default completion");
+    }
+    if form == "newspan" {
+        return run_newspan(case, asyn, obs);
     }
     // readings taken by the expansion before the body runs belong to Start
     CUR_OP.store(1, SeqCst);
@@ -712,6 +809,24 @@ fn run_macro(case: &Value, asyn: bool, obs: &mut Obs) {
                 (true, false) => plain_dfltl(exit),
                 (true, true) => block_on(plain_dfltl_async(exit)),
             };
+        } else if form == "setup" {
+            match (l, asyn) {
+                (false, false) => setup_dflt(exit),
+                (false, true) => block_on(setup_dflt_async(exit)),
+                (true, false) => setup_dfltl(exit),
+                (true, true) => block_on(setup_dfltl_async(exit)),
+            };
+        } else if form == "resultM" {
+            let r = match (l, asyn) {
+                (false, false) => resultm_dflt(exit),
+                (false, true) => block_on(resultm_dflt_async(exit)),
+                (true, false) => resultm_dfltl(exit),
+                (true, true) => block_on(resultm_dfltl_async(exit)),
+            };
+            let want_ok = exit == "ok" || exit == "early_ok";
+            if r.is_ok() != want_ok {
+                panic!("fixture result altered by the expansion");
+            }
         } else {
             let r = match (l, asyn) {
                 (false, false) => result_dflt(exit),
@@ -740,12 +855,14 @@ fn run_macro(case: &Value, asyn: bool, obs: &mut Obs) {
 }
 
 // ------------------------------------------------------------------ comparison
-fn compare(case: &Value, obs: &Obs, is_macro: bool) -> Vec<(String, Value)> {
+/// Mismatches with the statement's prediction; `drift` receives differences in what only
+/// level B predicts (lvl / err of an explicit completion made while unwinding).
+fn compare(case: &Value, obs: &Obs, is_macro: bool, drift: &mut Vec<Value>) -> Vec<(String, Value)> {
     let mut out = Vec::new();
     let ops = case["ops"].as_array().unwrap();
     let calls = lock(&CALLS).clone();
     let clock_log = lock(&CLOCK).log.clone();
-    let opaque = is_macro && case["form"] != "guard";
+    let opaque = is_macro && case["form"] != "guard" && case["form"] != "newspan" && case["form"] != "none";
     for (i, op) in ops.iter().enumerate() {
         if i >= obs.n.len() {
             break;
@@ -769,6 +886,12 @@ fn compare(case: &Value, obs: &Obs, is_macro: bool) -> Vec<(String, Value)> {
                 json!({"op_index": i, "calls": calls})));
         }
     }
+    if case["form"] == "setup" && case["done"] == true {
+        let trail: Vec<Value> = lock(&TRAIL).iter().map(|m| json!(m)).collect();
+        if case["trail"] != json!(trail) {
+            out.push((format!("setup / completion order {:?}, the statement says {}", lock(&TRAIL), case["trail"]), json!({"trail": trail})));
+        }
+    }
     let expect = case["expect"].as_array().unwrap();
     if calls.len() != expect.len() {
         out.push((format!("{} completion call(s) at the end, the statement says {}", calls.len(), expect.len()),
@@ -790,27 +913,38 @@ fn compare(case: &Value, obs: &Obs, is_macro: bool) -> Vec<(String, Value)> {
             diff.push(format!("name {} want {}", c["name"], e["name"]));
         }
         // macro forms carry `a` as a context property: only visible through the emitter
-        if !(is_macro && !via_emitter) && c["a"] != e["props"]["a"] {
+        // (a recording completion sees the span's own properties only)
+        if !(is_macro && !via_emitter && c["a"].is_null() && e["props"]["a"] == 0) && c["a"] != e["props"]["a"] {
             diff.push(format!("props.a {} want {}", c["a"], e["props"]["a"]));
         }
         if c["m"] != e["props"]["m"] {
             diff.push(format!("props.m {} want {}", c["m"], e["props"]["m"]));
         }
         if via_emitter {
+            let mut ldiff = Vec::new();
             let want_lvl = e["lvl"].as_str().unwrap();
             let got_lvl = c["lvl"].as_str().unwrap_or("none");
             if want_lvl != got_lvl {
-                diff.push(format!("lvl {got_lvl} want {want_lvl}"));
+                ldiff.push(format!("lvl {got_lvl} want {want_lvl}"));
             }
             let got_err = c["err"].as_str();
             let ok = match e["err"].as_str().unwrap() {
                 "none" => got_err.is_none(),
                 "panicked" => got_err == Some("panicked"),
+                "mapped" => got_err == Some("mapped"),
                 "some" => got_err.is_some(),
                 _ => true,
             };
             if !ok {
-                diff.push(format!("err {:?} want {}", got_err, e["err"]));
+                ldiff.push(format!("err {:?} want {}", got_err, e["err"]));
+            }
+            if e["lvlAny"] == true {
+                // the statement is silent here; the prediction is level B's
+                if !ldiff.is_empty() {
+                    drift.push(json!({"what": ldiff.join("; "), "case": case}));
+                }
+            } else {
+                diff.extend(ldiff);
             }
             if c["kind"] != "span" {
                 diff.push(format!("evt_kind {} want span", c["kind"]));
@@ -848,20 +982,42 @@ fn compare(case: &Value, obs: &Obs, is_macro: bool) -> Vec<(String, Value)> {
     out
 }
 
-fn decide(case: &Value, rep: &mut Report, by_form: &mut std::collections::BTreeMap<String, u64>, completions: &mut u64) {
+struct Tally {
+    by_form: std::collections::BTreeMap<String, u64>,
+    completions: u64,
+    probed: u64,
+    drift: Vec<Value>,
+    drift_total: u64,
+    typed: bool,
+}
+
+fn decide(case: &Value, rep: &mut Report, t: &mut Tally) {
     let verdict = case["verdict"].as_bool().unwrap();
     let script: Vec<u64> = case["script"].as_array().unwrap().iter().map(|v| v.as_u64().unwrap()).collect();
     let form = case["form"].as_str().unwrap().to_string();
-    let variants: &[(&str, bool)] = if form == "none" { &[("guard", false)] } else { &[("macro-sync", false), ("macro-async", true)] };
-    for (label, asyn) in variants {
+    let comp = case["ops"][0]["a"].as_str().unwrap();
+    // (label, executor, async)
+    let mut variants: Vec<(&str, u8, bool)> = Vec::new();
+    if form == "none" {
+        variants.push(("guard", 0, false));
+        if t.typed {
+            variants.push(("typed", 1, false));
+            if comp == "dflt" || comp == "dfltL" {
+                variants.push(("typed-new_span!", 2, false));
+            }
+        }
+    } else {
+        variants.push(("macro-sync", 3, false));
+        variants.push(("macro-async", 3, true));
+    }
+    for (label, exec, asyn) in variants {
         reset_env(verdict, &script);
         let mut obs = Obs::default();
-        let r = catch(|| {
-            if form == "none" {
-                run_erased(case, &mut obs)
-            } else {
-                run_macro(case, *asyn, &mut obs)
-            }
+        let r = catch(|| match exec {
+            0 => run_erased(case, &mut obs),
+            1 => run_typed(case, false, &mut obs),
+            2 => run_typed(case, true, &mut obs),
+            _ => run_macro(case, asyn, &mut obs),
         });
         match r {
             Err(p) => {
@@ -870,14 +1026,22 @@ fn decide(case: &Value, rep: &mut Report, by_form: &mut std::collections::BTreeM
             }
             Ok(()) => {
                 let nops = case["ops"].as_array().unwrap().len();
-                if form != "none" && (nops < 2 || (form != "guard" && nops == 2)) {
+                let hand = form == "guard" || form == "newspan";
+                if exec == 3 && ((form != "newspan" && nops < 2) || (!hand && nops == 2)) {
                     continue;
                 }
-                *by_form.entry(format!("{form}/{label}")).or_default() += 1;
+                *t.by_form.entry(format!("{form}/{label}")).or_default() += 1;
                 rep.checks += 1;
-                *completions += lock(&CALLS).len() as u64;
-                for (what, detail) in compare(case, &obs, form != "none") {
+                t.completions += lock(&CALLS).len() as u64;
+                let mut drift = Vec::new();
+                for (what, detail) in compare(case, &obs, exec >= 2, &mut drift) {
                     rep.mismatch(&format!("{what} ({label})"), case, detail);
+                }
+                t.drift_total += drift.len() as u64;
+                for d in drift {
+                    if t.drift.len() < 5 {
+                        t.drift.push(d);
+                    }
                 }
             }
         }
@@ -887,22 +1051,30 @@ fn decide(case: &Value, rep: &mut Report, by_form: &mut std::collections::BTreeM
 fn main() {
     let args: Vec<String> = std::env::args().collect();
     let (cases, out) = (&args[1], &args[2]);
+    let typed = args.get(3).map(|s| s == "typed").unwrap_or(false);
     quiet_panics();
     let mut rep = Report::new();
-    let mut by_form = std::collections::BTreeMap::<String, u64>::new();
-    let mut completions = 0u64;
-    let mut probed = 0u64;
+    let mut t = Tally { by_form: Default::default(), completions: 0, probed: 0, drift: Vec::new(), drift_total: 0, typed };
     for_each_case(cases, |_, case| {
         rep.cases += 1;
-        decide(case, &mut rep, &mut by_form, &mut completions);
+        if typed {
+            // every sequence followed by a terminal operation is a line of its own
+            if case["done"] == true {
+                decide(case, &mut rep, &mut t);
+            }
+            return;
+        }
+        decide(case, &mut rep, &mut t);
         // every non-terminal edge is followed by every terminal operation (the edge may be a
         // self-loop of the specification; a corrupted guard only shows when it ends)
         let probes = case["probes"].as_array().map(|v| v.as_slice()).unwrap_or(&[]);
         for pr in probes {
+            // <<op, a, ret, n, cid, lvl, err, pan, lvlAny>>
             let mut ext = case.clone();
             let n = pr[3].as_u64().unwrap();
+            let pan = pr[7] == true && pr[0] != "DropWhilePanicking";
             ext["ops"].as_array_mut().unwrap().push(json!({
-                "op": pr[0], "a": pr[1], "x": "", "en": case["verdict"], "ret": pr[2], "n": n}));
+                "op": pr[0], "a": pr[1], "x": if pan { "pan" } else { "" }, "en": case["verdict"], "ret": pr[2], "n": n}));
             ext["done"] = json!(true);
             ext["probes"] = json!([]);
             ext["expect"] = if n == 0 {
@@ -912,15 +1084,18 @@ fn main() {
                 e["cid"] = pr[4].clone();
                 e["lvl"] = pr[5].clone();
                 e["err"] = pr[6].clone();
+                e["lvlAny"] = pr[8].clone();
                 json!([e])
             };
             ext["probeBase"] = json!([]);
-            probed += 1;
-            decide(&ext, &mut rep, &mut by_form, &mut completions);
+            t.probed += 1;
+            decide(&ext, &mut rep, &mut t);
         }
     });
-    rep.extra.insert("probe_cases".into(), json!(probed));
-    rep.extra.insert("executions".into(), json!(by_form));
-    rep.extra.insert("completions_observed".into(), json!(completions));
+    rep.extra.insert("probe_cases".into(), json!(t.probed));
+    rep.extra.insert("executions".into(), json!(t.by_form));
+    rep.extra.insert("completions_observed".into(), json!(t.completions));
+    rep.extra.insert("drift_total".into(), json!(t.drift_total));
+    rep.extra.insert("drift".into(), json!(t.drift));
     rep.write(out);
 }
